@@ -724,6 +724,7 @@ func run(c *hx.Ctx) {
 	res.Shard = 40
 	res.Rule = "fork trees of real mined blocks (6 regimes, every tx kind, corruptions) x mgrsim submission plans interleaved with polls (max 1,2,3,7,1000) of subscribers started from nothing, from held indices (preferably on stale branches) and from ids the store never held; afterwards one subscriber per index the store still holds, all polled to the tip; non-trivial := some chunk contained a revert and some chunk was cut short by max; distinct by (tree seed, events)"
 	var cases []string
+	failed := map[string]int{}
 	doCase := func(cs Case) {
 		t := cs.tree()
 		w := runCase(cs, t)
@@ -734,7 +735,11 @@ func run(c *hx.Ctx) {
 			res.CountN(k, v)
 		}
 		if w.fail != nil {
-			small := shrink(cs, t, w.fail.kind)
+			small := cs
+			if failed[w.fail.kind] < 3 { // only the first replays of a kind are kept: shrink those
+				small = shrink(cs, t, w.fail.kind)
+			}
+			failed[w.fail.kind]++
 			w2 := runCase(small, t)
 			f := w2.fail
 			if f == nil {
